@@ -143,11 +143,14 @@ def main():
                     f'passed but teneva created / used another source: '
                     f'unseeded default_rng {rw2.entropy}, legacy {rw2.legacy}')
                 derived = derived or bool(rw2.seeded)
-            if derived:
-                # explicitly seeded internal streams: are they derived from
-                # the object?  Another object state must give another result
-                # whenever another integer seed does, and the object must
-                # have been drawn from
+            if True:
+                # the result must FOLLOW the object (also when internal
+                # explicitly seeded streams are used, which is acceptable iff
+                # they are derived from it): another object state must give
+                # another result whenever another integer seed does, and the
+                # object itself must have been drawn from - a private clone
+                # would leave it where it was, and the caller's next use of
+                # the object would repeat the same stream
                 def variant(seed_arg):
                     rng = np.random.default_rng(seed)
                     a, k = call.build(rng)
@@ -168,9 +171,10 @@ def main():
                         f'object that was passed (other object state -> same '
                         f'result: {o2 == outs[0]}; object not drawn from: '
                         f'{st1 == st0})')
-                    event('derived-internal-streams-follow-the-object')
+                    event('derived-internal-streams-follow-the-object'
+                        if derived else 'result-follows-the-generator-object')
                 else:
-                    event('derived-internal-streams-not-seed-sensitive')
+                    event('call-not-seed-sensitive')
             judged('generator-clone', outs[0] == outs[1]
                 and states[0] == states[1], f'{what}: two clones of one '
                 'generator gave different results or ended in different '
